@@ -1,13 +1,14 @@
 /-
 Lemmas for property C07, phase 2, part 13: **the private key is on the list iff delaney2d's
-orbifold is** — for positive curvature, under C08's parity monitor and the check "not weakly
-oriented ⇒ at least one cross-cap" (both decidable, evaluated by the drivers; they concern the
-handle / cross-cap bookkeeping of `delaney2d::orbifold_symbol`, i.e. surface topology, not the
+orbifold is** — for positive curvature, whenever `delaney2d::orbifold_symbol` is defined (no negative handle count; C08's parity monitor
+is a theorem) and under the check "not weakly oriented ⇒ at least one cross-cap" (decidable,
+evaluated by the drivers; they concern the handle / cross-cap bookkeeping of `delaney2d::orbifold_symbol`, i.e. surface topology, not the
 generator).  Assembles the census agreement, the private orientation test, the shape of a
 positive-curvature symbol and the two readings of the generator's list.
 -/
 import DSymVerif.Proofs.DSymGenShape
 import DSymVerif.Proofs.DSymGenSame
+import DSymVerif.Proofs.Delaney2dMapVertices
 
 set_option linter.unusedSectionVars false
 
@@ -254,7 +255,7 @@ include h hds hdim hfar hconn h1 ha hpos
 /-- **the private key is on the list iff delaney2d's orbifold is** (K > 0, under the two
     decidable monitors) -/
 theorem private_key_agrees
-    (hmon : D2.parityMonitor ⟨emittedSym c vs, rep⟩ = true)
+    (hdef : ∃ o', D2.orbifoldSymbol ⟨emittedSym c vs, rep⟩ = .ok o')
     (hcap : ∀ o, D2.orbifoldSymbol ⟨emittedSym c vs, rep⟩ = .ok o → o.orientable = false → 1 ≤ o.count) :
     ∃ o, orbifoldSymbol c vs = .ok (privString c vs) ∧
       D2.orbifoldSymbol ⟨emittedSym c vs, rep⟩ = .ok o ∧
@@ -266,6 +267,8 @@ theorem private_key_agrees
   have hb := adm_bounds hw ha
   have hgood := good2d_emitted h hds hdim hfar ha rep
   obtain ⟨hcurv, _⟩ := curvature_emitted h hds hdim hfar vs hl (fun i hi => (hb i hi).1) rep
+  obtain ⟨o', ho'⟩ := hdef
+  have hmon := parityMonitor_holds hgood ho'
   obtain ⟨o, hx⟩ := symbolCensus_of_parity hgood hmon
   obtain ⟨K, hK, hKv⟩ := gauss_bonnet_census hgood hx
   rw [hcurv] at hK
